@@ -107,7 +107,12 @@ if hasattr(I, "wait"):
 
 def _single(config, tower, met_index=0, surface_flux=None, cache=None):
     _LOG["single_cache_flags"].append(cache is not None)
-    return ("single", tower.name, met_index)
+    # the tower's coordinates as the single run sees them are part of "the corresponding single run"
+    return ("single", tower.name, met_index, tower.x, tower.y)
+
+
+def _tok(t, i):
+    return ("single", t[0], i, t[1], t[2])
 
 
 I.run_bldfm_single = _single
@@ -124,11 +129,20 @@ STRATS = ["towers", "time", "both", "bogus"]
 
 
 def _cfg(n_towers, n_steps, use_cache, footprint, cfg_workers):
-    towers = [TowerConfig(name="T%d" % k, lat=0.0, lon=0.0, z_m=5.0) for k in range(n_towers)]
-    dom = DomainConfig(nx=4, ny=4, xmax=10.0, ymax=10.0, nz=2)
+    # a reference origin is configured and the towers' local coordinates were edited after construction
+    # (moved into the domain): whatever a driver does with the configuration, the single runs must see these
+    towers = [TowerConfig(name="T%d" % k, lat=50.9501 + 0.001 * k, lon=11.5861, z_m=5.0) for k in range(n_towers)]
+    dom = DomainConfig(nx=4, ny=4, xmax=10.0, ymax=10.0, nz=2, ref_lat=50.95, ref_lon=11.586)
     met = MetConfig(ustar=list(range(1, n_steps + 1)))
-    return BLDFMConfig(domain=dom, towers=towers, met=met, solver=SolverConfig(footprint=footprint),
-                       parallel=ParallelConfig(max_workers=cfg_workers, use_cache=use_cache))
+    cfg = BLDFMConfig(domain=dom, towers=towers, met=met, solver=SolverConfig(footprint=footprint),
+                      parallel=ParallelConfig(max_workers=cfg_workers, use_cache=use_cache))
+    for k, t in enumerate(cfg.towers):
+        t.x, t.y = 2.0 + k, 3.0 + k
+    return cfg
+
+
+def _snap(cfg):
+    return [(t.name, t.x, t.y) for t in cfg.towers]
 
 
 def check_parallel(n_towers, n_steps, strategy, workers_given, workers, rot, rev, parent_threads, use_cache, footprint):
@@ -138,14 +152,15 @@ def check_parallel(n_towers, n_steps, strategy, workers_given, workers, rot, rev
     FM._fft_manager = sentinel
     cfg = _cfg(n_towers, n_steps, use_cache, footprint, 2)
     strat = STRATS[strategy]
+    snap = _snap(cfg)
     try:
         res = I.run_bldfm_parallel(cfg, max_workers=workers if workers_given else None, parallel_over=strat)
     except ValueError:
         return strat == "bogus"
     if strat == "bogus":
         return False
-    exp = {t.name: [("single", t.name, i) for i in range(n_steps)] for t in cfg.towers}
-    return (res == exp and list(res.keys()) == [t.name for t in cfg.towers]
+    exp = {t[0]: [_tok(t, i) for i in range(n_steps)] for t in snap}
+    return (res == exp and list(res.keys()) == [t[0] for t in snap] and _snap(cfg) == snap
             and RC.NUM_THREADS == parent_threads and FM._fft_manager is sentinel
             and res == I.run_bldfm_multitower(cfg))
 
@@ -205,14 +220,15 @@ def check_serial(n_towers: int, n_steps: int, use_cache: bool, footprint: bool, 
     flux = ("flux",) if user_flux else None
     _LOG["caches"] = 0
     _LOG["single_cache_flags"] = []
+    snap = _snap(cfg)
     ts = I.run_bldfm_timeseries(cfg, cfg.towers[-1], surface_flux=flux)
-    ok = ts == [("single", cfg.towers[-1].name, i) for i in range(n_steps)]
+    ok = ts == [_tok(snap[-1], i) for i in range(n_steps)]
     want_cache = use_cache and footprint
     ok = ok and _LOG["caches"] == (1 if want_cache else 0) and _LOG["single_cache_flags"] == [want_cache] * n_steps
     _LOG["caches"] = 0
     mt = I.run_bldfm_multitower(cfg, surface_flux=flux)
-    ok = ok and mt == {t.name: [("single", t.name, i) for i in range(n_steps)] for t in cfg.towers}
-    ok = ok and list(mt.keys()) == [t.name for t in cfg.towers] and _LOG["caches"] == (n_towers if want_cache else 0)
+    ok = ok and mt == {t[0]: [_tok(t, i) for i in range(n_steps)] for t in snap}
+    ok = ok and list(mt.keys()) == [t[0] for t in snap] and _LOG["caches"] == (n_towers if want_cache else 0) and _snap(cfg) == snap
     return ok
 
 
